@@ -531,6 +531,8 @@ def run(ctx, tier):
     results += sig_rule(ctx)
     results += private_producers(ctx)
     results += type_facts(ctx)
+    import c03
+    results += c03.snapshot_fixed(ctx, rule='C14.snapshot-fixed')
     ctx.stats['witness_programs'] = len(rows)
     ctx.stats['witness_samples'] = [dict(name=r['name'], what=r['what'], status=r['status']) for r in rows[:12]]
     return dict(
